@@ -73,6 +73,12 @@ fn next_down(x: f64) -> f64 {
 }
 
 fn probe(run: &mut Runner, tab: &Table, z: f64, t: f64, phi: f64, kind: &str) {
+    probe_after(run, tab, None, z, t, phi, kind)
+}
+
+/// `pre`: a position looked up immediately before (result discarded) - the lookup is a function of
+/// its arguments, whatever was asked before
+fn probe_after(run: &mut Runner, tab: &Table, pre: Option<f64>, z: f64, t: f64, phi: f64, kind: &str) {
     if !run.wants() {
         run.n += 1;
         return;
@@ -107,7 +113,13 @@ fn probe(run: &mut Runner, tab: &Table, z: f64, t: f64, phi: f64, kind: &str) {
         ("t_hex", fhex(t)),
     ]);
     run.case(base, move || {
+        if let Some(zp) = pre {
+            let _ = lookup(zp, t, phi);
+        }
         let (v, r, pout) = lookup(z, t, phi);
+        if let Some(zp) = pre {
+            let _ = lookup(-zp, t, phi);
+        }
         let (vn, rn, _) = lookup(-z, t, phi);
         let mut m = Map::new();
         m.insert("verdict".into(), json!(v));
@@ -180,6 +192,16 @@ pub fn run(run: &mut Runner, table_path: &str, seed: u64, thorough: bool) {
             for &t in &[t_first, next_down(t_first), next_up(t_first), t_last, next_up(t_last), next_down(t_last),
                         k[mid].0, next_up(k[mid].0), next_down(k[mid].0), (k[mid].0 + k[mid + 1].0) / 2.0, -1e-6, 5e-6] {
                 probe(run, &tab, z, t, rng.gen_range(0.0..6.28), "bound");
+            }
+        }
+        // the same boundary asked right after a neighbouring position (either side, either sign, far away)
+        let sel = s;
+        let k = &tab.slices[sel].0;
+        let mid = rng.gen_range(1..k.len() - 1);
+        for &pre in &[next_up(b), next_down(b), -next_up(b), lower, next_down(lower), zmax, 0.0, 2.0] {
+            for &t in &[k[0].0, k[k.len() - 1].0, k[mid].0, (k[mid].0 + k[mid + 1].0) / 2.0] {
+                probe_after(run, &tab, Some(pre), b, t, rng.gen_range(0.0..6.28), "bound-after");
+                probe_after(run, &tab, Some(pre), next_up(lower), t, rng.gen_range(0.0..6.28), "bound-after");
             }
         }
     }
